@@ -118,6 +118,9 @@ func genC05(t *testing.T) {
 		c.Script = randInterleave(r, append([][]string{prod}, cons...), []int{0, 0, 20, 60}[r.IntN(4)])
 		run(c)
 	}
+	if common.Batch == 0 {
+		nilElemsSequential("C05")
+	}
 	// Seq / ToSeq are plain functions: identity on every slice
 	for k := 0; k < common.Pick(200, 5000); k++ {
 		r := common.RngN("seq", uint64(k))
